@@ -5,7 +5,7 @@ const { summ } = require('../oracles/erase')
 
 module.exports = mk({
   id: 'C04',
-  families: ['B', 'A', 'C', 'G', 'M', 'S', 'T', 'H', 'Q', 'R', 'N', 'L'],
+  families: ['B', 'A', 'C', 'G', 'M', 'S', 'T', 'H', 'Q', 'R', 'N', 'L', 'K'],
   // real library files: the same static oracle on syntax nobody wrote an expectation for
   corpus: { configs: ['FULL', 'RENAMED'], quickLimit: 60 },
   familyOpts: (tier) => ({ B: { ops: require('../grammar/families').REP_OPS.slice(0, tier === 'thorough' ? 12 : 10), k: tier === 'thorough' ? 3 : 2 } }),
